@@ -256,3 +256,75 @@ for _n in (0, 1, 2):
                        "self.ir_builder": {"signal_type_map": ty.TDict(ty.Str, ty.Str)}, "self.parent": {"signal_refs": ty.TConcrete(_names)},
                        "source_ref": {"debug_label": ty.TOpt(ty.Str), "debug_metadata": ty.TConcrete({}), "source_ast": ty.TConcrete(None)}},
         properties=("C13", "C01"), min_obligations=2, no_replay=True, note=f"{_n} variables in scope"))
+
+
+# =================================================================================================
+# SignalAnalyzer._resolve_signal_identity — which game signal a value travels on:
+#   a value with a declared / explicit type keeps EXACTLY that signal (mapped names through the program's own map);
+#   an untyped value (implicit type __vN) gets the name its type is already mapped to, or else a FRESH signal from the allocator
+#   (contract above), and the mapping is recorded — so every value of one implicit type is on one signal and two different implicit
+#   types are never on the same one, nor on a signal the program names or has mapped;
+#   a resolved entry is not resolved again (unless forced).
+# Evaluated on the REAL method (real SignalAnalyzer built by its constructor) over an enumerated box: bounded.
+# =================================================================================================
+RSQ = "dsl_compiler/src/layout/signal_analyzer.py::SignalAnalyzer._resolve_signal_identity"
+
+
+def _resolve_post(a, res):
+    me = a.self
+    sc = me._scenario
+    e = a.entry
+    kind = sc["kind"]
+    name = e.resolved_signal_name
+    if kind == "already":
+        return name == "signal-Q"
+    if kind == "explicit":
+        # (the internal category string of items / fluids is not used for the emitted signal dictionaries, which go by name)
+        return name == sc["type"] and (sc["category"] != "virtual" or e.resolved_signal_type == "virtual")
+    if kind == "mapped-implicit":
+        return name == "signal-D" and e.resolved_signal_type == "virtual"
+    # fresh implicit: a virtual signal that nobody uses, recorded for the type, and stable / distinct on the next resolutions
+    from dsl_compiler.src.layout.signal_analyzer import SignalUsageEntry
+    taken = set(sc["taken"])
+    ok = [name not in taken, name is not None and name.startswith("signal-"), name not in ("signal-W", "signal-each", "signal-everything", "signal-anything"),
+          me.signal_type_map.get(sc["type"]) == {"name": name, "type": "virtual"}]
+    again = SignalUsageEntry(signal_id="again", signal_type=sc["type"])
+    me._resolve_signal_identity(again)
+    other = SignalUsageEntry(signal_id="other", signal_type="__v77")
+    me._resolve_signal_identity(other)
+    ok += [again.resolved_signal_name == name, other.resolved_signal_name != name, other.resolved_signal_name not in taken]
+    return all(ok)
+
+
+resolve_identity = Contract(qualname=RSQ, params={"self": ty.TOpaque("analyzer"), "entry": ty.TOpaque("entry")},
+                            ensures=[("explicit types keep their signal; one implicit type = one fresh signal, different types different signals, never a signal in use", _resolve_post)],
+                            verify=False, properties=("C13", "C12", "C01"), note="evaluated on the real method over an enumerated box (bounded stand-in)")
+CONTRACTS.append(resolve_identity)
+
+
+def resolve_identity_arg_sets():
+    from dsl_compiler.src.common.diagnostics import ProgramDiagnostics
+    from dsl_compiler.src.layout.signal_analyzer import SignalAnalyzer, SignalUsageEntry
+    out = []
+    maps = ({}, {"__v1": {"name": "signal-D", "type": "virtual"}, "signal-E": "signal-E"}, {"__v1": {"name": "signal-D", "type": "virtual"}, "__v2": {"name": "signal-A", "type": "virtual"}})
+    for tmap in maps:
+        for referenced in (set(), {"signal-B", "signal-C"}):
+            taken = {m["name"] if isinstance(m, dict) else m for m in tmap.values()} | set(referenced)
+            cases = [("already", None, None), ("explicit", "signal-X", "virtual"), ("explicit", "iron-plate", "item"), ("explicit", "water", "fluid"), ("fresh", "__v9", None)]
+            if "__v1" in tmap:
+                cases.append(("mapped-implicit", "__v1", None))
+            for kind, t, cat in cases:
+                for via_literal in (False, True):
+                    an = SignalAnalyzer(ProgramDiagnostics(log_level="error"), {k: (dict(v) if isinstance(v, dict) else v) for k, v in tmap.items()}, referenced_signal_names=set(referenced))
+                    e = SignalUsageEntry(signal_id="n1")
+                    if kind == "already":
+                        e.resolved_signal_name, e.signal_type = "signal-Q", "signal-X"
+                    elif via_literal and kind == "explicit":
+                        e.literal_declared_type, e.signal_type = t, ("__v1" if "__v1" in tmap else "__v5")  # the declared type wins over the value's own implicit type
+                    else:
+                        e.signal_type = t
+                    if via_literal and kind != "explicit":
+                        e.debug_label = "some_name"
+                    an._scenario = {"kind": kind, "type": t, "category": cat, "taken": sorted(taken)}
+                    out.append({"self": an, "entry": e})
+    return out
